@@ -9,7 +9,14 @@ import (
 // Register wires the vcas checks and the helper-process entry points.
 func Register() {
 	rig.SubCommands["vcas-actor"] = actorMain
-	rig.Register(&rig.Spec{Prop: "C02", Level: "exploration",
+	nbsMechanism := []string{
+		`nbs\.\(\*NomsBlockStore\)\.(commit|updateManifest|addChunk|putChunk|Put|Commit|Rebase|rebase|Root|errorIfDangling|refCheck)$`,
+		`nbs\.fileManifest\.(Update|ParseIfExists)$`, `nbs\.updateWithChecker`, `nbs\.parseIfExists`,
+		`nbs\.\(\*ChunkJournal\)\.(Update|ParseIfExists|flushToBackingManifest)$`, `nbs\.\(\*journalManifest\)\.(Update|ParseIfExists)$`,
+		// rig's race-report parser cuts a function name at its first "(", so pointer-receiver methods arrive as ".../store/nbs."
+		`/store/nbs\.$`,
+	}
+	rig.Register(&rig.Spec{Prop: "C02", Level: "exploration", RaceFuncs: nbsMechanism,
 		Stages: []rig.Stage{
 			{Name: "goroutines", Fn: c02Goroutines, Race: true, TimeoutQuick: 25 * time.Minute, TimeoutThorough: 4 * time.Hour},
 			{Name: "processes", Fn: c02Processes, TimeoutQuick: 25 * time.Minute, TimeoutThorough: 4 * time.Hour},
@@ -17,6 +24,7 @@ func Register() {
 	rig.Register(&rig.Spec{Prop: "C07", Level: "exploration",
 		Stages: []rig.Stage{{Name: "closure", Fn: c07, TimeoutQuick: 25 * time.Minute, TimeoutThorough: 4 * time.Hour}}})
 	rig.Register(&rig.Spec{Prop: "C42", Level: "exploration",
+		RaceFuncs: append([]string{`blobstore\.\(\*(InMemoryBlobstore|LocalBlobstore)\)\.`, `nbs\.blobstoreManifest\.`, `nbs\.updateBSWithChecker`, `/store/blobstore\.$`}, nbsMechanism...),
 		Stages: []rig.Stage{
 			{Name: "ranges", Fn: c42Ranges, TimeoutQuick: 25 * time.Minute, TimeoutThorough: 4 * time.Hour},
 			{Name: "cas", Fn: c42CAS, Race: true, TimeoutQuick: 25 * time.Minute, TimeoutThorough: 4 * time.Hour},
